@@ -53,6 +53,11 @@ def unknowns(rnd):
         # an unknown wrapper whose name starts with a digit / underscore / dot, around a COPY of a data element the enclosing
         # aggregate already has (if the wrapper's tags were lost the copy would count as a repetition)
         ("wrapper-odd-name-around-known-leaf", [T.T_open(rnd.choice(["401KDETAIL", "1099INFO", "_EXT", "3RDPARTY.INFO", "9"])), "COPY-FIRST-LEAF", T.T_CLOSE]),
+        # an unknown NON-EMPTY aggregate whose name is a data element's elsewhere
+        ("unknown-aggregate-named-like-an-element", [T.T_open(rnd.choice(["MESSAGE", "NAME", "URL", "BALAMT", "MEMO", "FITID", "DTSERVER", "TRNAMT"])),
+                                                     T.T_leaf("ZZLANG", "x"), T.T_open("ZZINNER"), T.T_leaf("CODE", "1"), T.T_CLOSE, T.T_CLOSE]),
+        # unknown aggregates nested far deeper than any model path
+        ("unknown-aggregate-deep", [T.T_open("ZZD%d" % i) for i in range(24)] + [T.T_leaf("ZZLEAF", "x")] + [T.T_CLOSE] * 24),
         # an unknown element named like an element that is open around it / like itself
         ("unknown-nested-same-tag", [T.T_open("ZZSAME"), T.T_open("ZZSAME"), T.T_leaf("ZZLEAF", "x"), T.T_CLOSE, T.T_CLOSE]),
     ]
